@@ -163,7 +163,11 @@ func driveProxy(backend string, tlsOn bool, r *emit.Rand, dir string, rounds int
 		if req.Header.Get("If-None-Match") != "" && n%2 == 0 {
 			return e2elib.NewAnswer(304, nil, `ETag: "v"`)
 		}
-		return e2elib.NewAnswer(200, bytes.Repeat([]byte("d"), 300), "Cache-Control: max-age=60", `ETag: "v"`)
+		// several lines of the fields the proxy itself appends to (Via, Cache-Status, X-Cache): a stored value slice with
+		// spare capacity is where per-request appends would meet
+		return e2elib.NewAnswer(200, bytes.Repeat([]byte("d"), 300), "Cache-Control: max-age=60", `ETag: "v"`,
+			"Via: 1.1 edge-a", "Via: 1.1 edge-b", "Via: 1.1 edge-c", "Cache-Status: edge-a; hit", "Cache-Status: edge-b; fwd=miss", "Cache-Status: edge-c; hit",
+			"X-Cache: HIT from edge-a", "X-Cache: MISS from edge-b", "X-Cache: HIT from edge-c")
 	})
 	var wg sync.WaitGroup
 	stop := make(chan struct{})
